@@ -87,3 +87,36 @@ def holds_args(name, payload, args):
         return (enc.get('kind') == args.get('kind') and (idx == '*' or enc.get('idx') in idx)
                 and args.get('imp') in ('*', enc.get('imp')))
     return holds(name, payload)
+
+
+@trigger
+def DanglingConditionalTargetWithoutSources(payload):
+    """After initialisation no source connector of some connection choice is left in the graph while one of its
+    target connectors still is (the choice node is gone, the target dangles)."""
+    g = _g(payload)
+    tr = payload.get('trace') or {}
+    ev = tr.get('ev') or []
+    if not ev or not g.get('cc'):
+        return False
+    nodes = set(ev[0]['obs'].get('nodes', []))
+    for c in g['cc']:
+        if not (set(c['src']) & nodes) and (set(c['tgt']) & nodes):
+            return True
+    return False
+
+
+@trigger
+def HasConnectionChoice(payload):
+    return bool(_g(payload).get('cc'))
+
+
+@trigger
+def GroupingWithMixedRepeatability(payload):
+    """A grouping connector whose members differ in the repeated-connection flag."""
+    g = _g(payload)
+    for nd in g.get('nodes', []):
+        if nd['t'] == 'grp':
+            flags = {g['nodes'][m-1]['rep'] for m in nd['members']}
+            if len(flags) > 1:
+                return True
+    return False
